@@ -171,6 +171,7 @@ fn c15_element_to_bits() {
 /// canonical NaN, never as another type).
 // ALSO: C12
 // FN: <JsValue as From<TypedArrayElement>>::from
+// BOTH-FEATURES: jsvalue-enum
 #[kani::proof]
 fn c15_element_into_jsvalue() {
     let e = any_number_element();
